@@ -6,9 +6,14 @@ in SPY(1000+index, …), so the log is the trace of everything that was evaluate
 """
 import itertools
 import signal
+import sys
 
-import common
-from common import Result, parse_kv, same_value
+import os
+HERE = os.path.dirname(os.path.abspath(__file__))
+if os.path.dirname(HERE) not in sys.path:
+    sys.path.insert(0, os.path.dirname(HERE))
+import common  # noqa: E402
+from common import Result, parse_kv, same_value  # noqa: E402
 import evalwire
 from evalwire import cp
 
@@ -709,6 +714,146 @@ class Watchdog(Exception):
     pass
 
 
+# ------------------------------------------------------------------------------ fresh interpreters
+
+WARMUPS = [
+    ('nothing', []),
+    ('IF with 2 arguments', ['=IF(B1,5)']),
+    ('IF with 3 arguments', ['=IF(B1,5,6)']),
+    ('IF with 1 argument', ['=IF(B1)']),
+    ('AND / OR with 1 argument', ['=AND(B1)', '=OR(B1)']),
+    ('AND / OR with 4 arguments, NOT', ['=AND(B1,B1,B1,B1)', '=OR(B1,B1,B1,B1)', '=NOT(B1)']),
+    ('empty AND / OR', ['=AND()', '=OR()']),
+    ('a failing IF', ['=IF(NOSUCHFN(1),1,2)']),
+    ('reverse order', None),
+]
+
+
+def child_main():
+    """fresh interpreter: evaluate the warm-up formulas, then the cases, print [[outcome, spy log], …]"""
+    import json
+    job = json.loads(sys.stdin.read())
+    real = Real()
+
+    class C:
+        pass
+    for text in job['warm']:
+        c = C()
+        c.real, c.later = {ENTRY: text, 'Sheet1!B1': True}, {}
+        try:
+            real.run(c)
+        except BaseException:  # noqa: BLE001  (the warm-up only has to HAPPEN)
+            pass
+    out = []
+    for d in job['cases']:
+        c = C()
+        c.real, c.later = d['real'], d['later']
+        o, log = real.run(c)
+        out.append([o, log])
+    sys.stdout.write(json.dumps(out))
+
+
+def fresh_process_cases(outcomes, res, ctx):
+    """Round-7 seed C10-10 (a process-wide cache of a function's lazy parameters filled from the FIRST call's bound
+    arguments: after a 2-argument IF every 3-argument IF evaluated its else branch eagerly).  What a formula evaluates
+    to, and which of its arguments are evaluated, must not depend on which IF / AND / OR call the interpreter happened
+    to see first: a sample of the cases judged above (their outcome in THIS process met Spec) is re-evaluated in fresh
+    interpreters after different first calls, and in reverse order; every outcome and spy log must be the same."""
+    import json
+    import os
+    import subprocess
+    pool = [(c, o, l) for c, o, l in outcomes if getattr(c, 'real', None) and ('SPY(' in c.text or 'NOSUCHFN' in c.text)]
+    thorough = ctx.tier == 'thorough' or ctx.widen
+    want = 1500 if thorough else 350
+    stride = max(1, len(pool) // want)
+    sample = pool[ctx.rng.randrange(stride)::stride][:want + 50]
+    # always include shapes where an UNSELECTED branch would be visible at once
+    extra = []
+    for text, consts in (('=IF(B1,SPY(1,5),SPY(2,1/B2))', {'Sheet1!B1': True, 'Sheet1!B2': 0}),
+                         ('=IF(B1,SPY(1,1/B2),SPY(2,7))', {'Sheet1!B1': False, 'Sheet1!B2': 0}),
+                         ('=IF(B1,SPY(1,5))', {'Sheet1!B1': False}),
+                         ('=IF(B1,SPY(1,5),NOSUCHFN(1))', {'Sheet1!B1': True}),
+                         ('=AND(B1,SPY(1,1/B2))', {'Sheet1!B1': False, 'Sheet1!B2': 0}),
+                         ('=OR(B1,SPY(1,1/B2))', {'Sheet1!B1': True, 'Sheet1!B2': 0}),
+                         ('=AND(B1,B1,B1,SPY(1,B2))', {'Sheet1!B1': True, 'Sheet1!B2': False})):
+        class C:
+            pass
+        c = C()
+        c.real, c.later, c.text = {ENTRY: text, **consts}, {}, text
+        extra.append(c)
+    real = Real()
+    items = [(c.real, getattr(c, 'later', {}), c.text, o, l) for c, o, l in sample]
+    for c in extra:
+        o, l = real.run(c)
+        items.append((c.real, {}, c.text, o, l))
+    procs = []
+    env = dict(os.environ)
+    for label, warm in WARMUPS:
+        order = list(range(len(items)))
+        if warm is None:
+            order.reverse()
+            warm = []
+        job = {'warm': warm, 'cases': [{'real': items[i][0], 'later': items[i][1]} for i in order]}
+        p = subprocess.Popen([sys.executable, os.path.abspath(__file__), '--child'], stdin=subprocess.PIPE,
+                             stdout=subprocess.PIPE, stderr=subprocess.DEVNULL, env=env, text=True)
+        procs.append((label, warm, order, p, json.dumps(job)))
+    import threading
+    results = {}
+
+    def feed(label, p, data):
+        try:
+            results[label] = p.communicate(data, timeout=600)[0]
+        except Exception:  # noqa: BLE001
+            p.kill()
+            results[label] = None
+    threads = [threading.Thread(target=feed, args=(label, p, data)) for label, _w, _o, p, data in procs]
+    for t in threads:
+        t.start()
+    for t in threads:
+        t.join()
+    for label, warm, order, p, _data in procs:
+        raw = results.get(label)
+        try:
+            outs = json.loads(raw)
+        except Exception:  # noqa: BLE001
+            raise RuntimeError(f'C10 fresh-process route: the child for warm-up {label!r} gave no result')
+        for i, (o, log) in zip(order, outs):
+            cells, later, text, want_o, want_log = items[i]
+            res.evaluations += 1
+            res.count('fresh-process:' + label)
+            if len(log) < text.count('SPY('):
+                res.nontrivial.add(('fresh', label, text, json.dumps(cells, sort_keys=True, default=str)))
+            if (o, log) != (want_o, list(want_log)) and not (same_value(o, want_o) and log == list(want_log)):
+                res.violations.append({
+                    'what': 'the outcome / the arguments evaluated depend on what the interpreter evaluated FIRST: in a fresh '
+                            f'process, after the first call(s) {warm or label}, the formula does not behave as in the '
+                            'process where it met the reference (a lazily selected branch evaluated eagerly, or order)',
+                    'input': {'cells': cells, 'later': later, 'entry': ENTRY, 'fresh_process_first_calls': warm,
+                              'order': label},
+                    'expected': {'value': want_o, 'spy_log': list(want_log)},
+                    'got': {'value': o, 'spy_log': log, 'formula': text}})
+
+
+
+def fresh_replay(inp, d, res):
+    """replay of a fresh-process violation: the formula in a new interpreter after the recorded first calls, against
+    the recorded reference outcome"""
+    import json
+    import os
+    import subprocess
+    job = {'warm': inp['fresh_process_first_calls'], 'cases': [{'real': inp['cells'], 'later': inp.get('later', {})}]}
+    p = subprocess.run([sys.executable, os.path.abspath(__file__), '--child'], input=json.dumps(job),
+                       stdout=subprocess.PIPE, stderr=subprocess.DEVNULL, text=True, timeout=600)
+    o, log = json.loads(p.stdout)[0]
+    want = d['expected']
+    res.evaluations += 1
+    print(f'replay (fresh process, first calls {job["warm"]}): {inp["cells"]} -> {o} log={log}; reference={want}')
+    if not (same_value(o, want['value']) and log == list(want['spy_log'])):
+        res.violations.append({'what': d.get('what', 'fresh-process outcome differs'), 'input': inp, 'expected': want,
+                               'got': {'value': o, 'spy_log': log}})
+    return res
+
+
 def run(ctx):
     res = Result()
     thorough = ctx.tier == 'thorough' or ctx.widen
@@ -738,6 +883,8 @@ def run(ctx):
         import json
         d = json.loads(open(common.VERIF / ctx.replay if not str(ctx.replay).startswith('/') else ctx.replay).read())
         inp = d['input']
+        if 'fresh_process_first_calls' in inp:
+            return fresh_replay(inp, d, res)
         c = Case('replay', {}, [], None)
         c.real, c.text, c.line = inp['cells'], inp['cells'][ENTRY], inp['line']
         c.later = inp.get('later', {})
@@ -816,6 +963,7 @@ def run(ctx):
                 res.sample({'formula': c.text, 'cells': {k: v for k, v in c.real.items() if k != ENTRY}, 'real': out,
                             'spy_log': log, 'spec': spec, 'spec_log': slog, 'model': d['impl']})
 
+    outcomes = []
     old = signal.signal(signal.SIGALRM, alarm)
     try:
         for c, r in zip(cases, resp):
@@ -832,6 +980,7 @@ def run(ctx):
             else:
                 out, log = real.run(c)
             signal.alarm(0)
+            outcomes.append((c, out, log))
             judge(c, r, out, log, hist=getattr(c, 'replay_history', None))
         if not ctx.replay:
             # histories: ONE evaluator over a sequence of truth assignments; per step the oracle is Spec on the
@@ -855,7 +1004,12 @@ def run(ctx):
     if not ctx.replay:
         direct_cases(real, res, ctx)
         twin_sheet_cases(res)
+        fresh_process_cases(outcomes, res, ctx)
     res.exhaustive = True
     if res.drift:
         res.notes.append(f'{len(res.drift)} model/implementation differences where the code still meets Spec')
     return res
+
+
+if __name__ == '__main__' and len(sys.argv) > 1 and sys.argv[1] == '--child':
+    child_main()
